@@ -46,6 +46,9 @@ func ParseSwagger(spec *openapi3.Swagger, opts SchemaOptions) (*Spec, error) {
 
 	for _, pathKey := range sortedKeys(spec.Paths) {
 		pathItem := spec.Paths[pathKey]
+		if pathItem == nil {
+			return nil, fmt.Errorf("path %q: path item is empty", pathKey)
+		}
 		pi := NewPathItem(pathKey)
 		for _, method := range httpMethods() {
 			operation := pathItem.GetOperation(string(method.HTTP))
@@ -105,12 +108,18 @@ type Schema struct {
 }
 
 func NewSchemaRef(schema *openapi3.SchemaRef, components Sourcer[Schema], opts SchemaOptions) (Ref[Schema], error) {
+	if schema == nil {
+		return nil, fmt.Errorf("schema is not set")
+	}
 	if schema.Ref != "" {
 		v, ok := components.Get(schema.Ref)
 		if !ok {
 			return nil, fmt.Errorf("%q: not found in components", schema.Ref)
 		}
 		return NewRef[Schema](v), nil
+	}
+	if schema.Value == nil {
+		return nil, fmt.Errorf("schema is empty")
 	}
 	return NewSchema(schema.Value, components, opts)
 }
